@@ -570,7 +570,7 @@ func TestPropMalformedFrame(t *testing.T) {
 		if err != nil {
 			t.Fatalf("HARNESS-ERROR: %v", err)
 		}
-		kind := rapid.SampledFrom([]string{"length-too-long", "length-too-short", "truncated-payload", "bad-prefix", "truncated-header", "huge-length", "garbage"}).Draw(t, "kind")
+		kind := rapid.SampledFrom([]string{"length-too-long", "length-too-short", "truncated-payload", "bad-prefix", "truncated-header", "huge-length", "garbage", "big-damaged", "big-damaged"}).Draw(t, "kind")
 		var bad []byte
 		switch kind {
 		case "length-too-long":
@@ -591,13 +591,50 @@ func TestPropMalformedFrame(t *testing.T) {
 		case "huge-length":
 			bad = frame(payload)
 			binary.BigEndian.PutUint32(bad, 0xfffffff0)
+		case "big-damaged":
+			// a frame of several KB (beyond any read-ahead) whose decoding fails early or in the middle
+			var items []pyh.Spec
+			for i, n := 0, rapid.IntRange(120, 400).Draw(t, "bigitems"); i < n; i++ {
+				items = append(items, pyh.Tuple(pyh.Uni("bad.frame"), pyh.Tuple(pyh.Int("1"), pyh.Int("2"))))
+			}
+			big, err := py.srv.Dumps(pyh.List(items...), rapid.IntRange(0, 4).Draw(t, "bigproto"), "pickle")
+			if err != nil {
+				t.Fatalf("HARNESS-ERROR: %v", err)
+			}
+			at := rapid.SampledFrom([]int{8, 20, 60, len(big) / 2}).Draw(t, "damageAt")
+			big[at] = rapid.SampledFrom([]byte{0xff, 0x00, 'Z', 0x7f}).Draw(t, "damage")
+			bad = frame(big)
 		default:
 			bad = frame(rapid.SliceOfN(rapid.Byte(), 1, 40).Draw(t, "garbage"))
 		}
 		stream = append(stream, bad...)
-		got, herr, pn := runPickle(stream, nil)
+		// ONE handler serves this connection and then another one (as the listener does with all its connections): what
+		// the damaged connection leaves behind must not touch the next
+		d := &capDisp{}
+		hnd := input.NewPickle(d)
+		var herr error
+		var pn interface{}
+		func() {
+			defer func() { pn = recover() }()
+			herr = hnd.Handle(&chunked{data: stream})
+		}()
 		if pn != nil {
 			t.Fatalf("pickle handler panicked on a malformed frame (%s): %v", kind, pn)
+		}
+		got := append([]string(nil), d.events...)
+		nextName := rapid.SampledFrom(namePool[:4]).Draw(t, "nextname")
+		nextPayload, err := py.srv.Dumps(pyh.List(pyh.Tuple(pyh.Uni(nextName), pyh.Tuple(pyh.Int("1500000777"), pyh.Int("7")))), rapid.IntRange(0, 4).Draw(t, "nextproto"), "pickle")
+		if err != nil {
+			t.Fatalf("HARNESS-ERROR: %v", err)
+		}
+		before := len(d.events)
+		var nerr error
+		func() {
+			defer func() { pn = recover() }()
+			nerr = hnd.Handle(&chunked{data: frame(nextPayload)})
+		}()
+		if pn != nil || nerr != nil || len(d.events) != before+1 || d.events[before] != fmt.Sprintf("D:%s 7 1500000777", nextName) {
+			t.Fatalf("a well-formed connection served by the same handler after a connection with a malformed frame (%s): error %v, panic %v, dispatched %q, want [%q]", kind, nerr, pn, d.events[before:], fmt.Sprintf("D:%s 7 1500000777", nextName))
 		}
 		// everything of the earlier frames, in order; the malformed frame itself may
 		// not contribute a datapoint that is not in it
@@ -610,6 +647,9 @@ func TestPropMalformedFrame(t *testing.T) {
 			}
 		}
 		for _, g := range got[len(want):] {
+			if kind == "big-damaged" {
+				break // (a flipped byte inside a string or number is a well-formed pickle of something else)
+			}
 			if g != "I" && g != "D:bad.frame 2 1" {
 				t.Fatalf("malformed frame (%s) produced a datapoint that was never sent: %q", kind, g)
 			}
